@@ -100,13 +100,18 @@ def signatures(fnode):
     return sig
 
 
+def _digest(fnode):
+    import hashlib
+    return hashlib.sha1(ast.dump(fnode).encode()).hexdigest()[:16]
+
+
 def build_hints(prog):
     h = {}
     for m in prog.modules.values():
         for q, f in m.functions.items():
             s = signatures(f.node)
             if s:
-                h[m.relpath + '::' + q] = s
+                h[m.relpath + '::' + q] = {'digest': _digest(f.node), 'sig': s}
     return h
 
 
@@ -199,10 +204,12 @@ def normalise(prog, hints=None):
             key = m.relpath + '::' + q
             if key not in hints:
                 continue
+            if hints[key].get('digest') == _digest(f.node):
+                continue            # function unchanged since the hints were taken: identity renaming
             cur = signatures(f.node)
             if not cur:
                 continue
-            ren = _mapping(cur, hints[key])
+            ren = _mapping(cur, hints[key]['sig'])
             if ren:
                 _apply(f.node, ren)
                 done[key] = ren
